@@ -455,6 +455,10 @@ class INETBase(NLRI):
             # withdraw, so an announce carrying it took that path.
             if labels_list and not ended:
                 raise Notify(3, 10, 'the label stack of the NLRI never ends: no bottom of stack bit')
+            if not labels_list:
+                # RFC 8277 2.2 / 2.4: the NLRI of a labelled family always carries at least one label; a length too
+                # short for one was read as a plain prefix and the route announced
+                raise Notify(3, 10, 'the NLRI of a labelled family is too short to hold a label')
 
         # Parse route distinguisher if present
         rd: RouteDistinguisher | None = None
